@@ -147,7 +147,46 @@ def sniJudge (f : List String) (out : String) : String :=
   | some c, some o => Casket.TLSSpec.sniVerdict c.cfgs c.req c.sni o
   | _, _ => "bad:unparsable:" ++ out
 
+/-
+  c06.handshake  aesni  cfgs  snihex  cmin  cmax  localaddr
+     out = fail | ok TAB version TAB sanhex TAB requested(0|1)
+-/
+structure HsCase where
+  aesni : Bool
+  cfgs : List Cfg
+  sni : Bytes
+  cmin : Nat
+  cmax : Nat
+  la : Option Bytes
+
+def parseHs : List String → Option HsCase
+  | [a, cs, sni, mn, mx, la] => do
+    pure { aesni := a == "1", cfgs := ← parseCfgs cs, sni := ← bytes sni, cmin := ← mn.toNat?, cmax := ← mx.toNat?,
+           la := ← parseLocal la }
+  | _ => none
+
+def showHS : HS → String
+  | .fail => "fail"
+  | .ok v san r => s!"ok\t{v}\t{hexB san}\t{bool01 r}"
+
+def parseHS (s : String) : Option HS :=
+  match s.splitOn "\t" with
+  | ["fail"] => some .fail
+  | ["ok", v, san, r] => do pure (.ok (← v.toNat?) (← bytes san) (r == "1"))
+  | _ => none
+
+def hsModel (f : List String) : String :=
+  match parseHs f with
+  | none => "bad-case"
+  | some c => showHS (handshake c.aesni c.cfgs c.sni c.cmin c.cmax c.la)
+
+def hsJudge (f : List String) (out : String) : String :=
+  match parseHs f, parseHS out with
+  | some c, some o => Casket.TLSSpec.hsVerdict c.aesni c.cfgs c.sni c.la o
+  | _, _ => "bad:unparsable:" ++ out
+
 def streams : List Driver.Stream := [
+  { name := "c06.handshake", model := hsModel, judge := hsJudge },
   { name := "c06.snihost", model := sniModel, judge := sniJudge },
   { name := "c06.select", model := selectModel, judge := selectJudge },
   { name := "c06.defaults", model := defaultsModel, judge := fun _ _ => "ok" }
